@@ -51,6 +51,9 @@ UID_OFF = 1000000
 GID_OFF = 2000000
 
 
+FINDING_PROBE = "C16-probe-rereads-stat"
+
+
 class Boom(Exception):
     """the exception thrown in a block's body"""
 
@@ -663,6 +666,18 @@ def compare(rows, res, source, known=None):
         if im != mo:
             res.disagree("model", inp, im, mo, sp, note="step %d: implementation differs from the Lean model" % i)
             return True
+    # region of the known finding: stat opened more than once inside a block, probes included
+    depth, base = 0, None
+    for (o, im, _, _) in rows:
+        if o["op"] == "enter":
+            if depth == 0:
+                base = im["reads"][0] + im["probes"]
+            depth += 1
+        elif o["op"] == "exit":
+            depth -= 1
+        if depth > 0 and base is not None and im["reads"][0] + im["probes"] - base > 1:
+            res.known_seen[FINDING_PROBE] = res.known_seen.get(FINDING_PROBE, 0) + 1
+            break
     bad = block_read_check(rows)
     if bad:
         res.disagree("spec", {"history": hist[:bad[0] + 1], "source": source}, rows[bad[0]][1], rows[bad[0]][2],
@@ -812,4 +827,22 @@ def replay(ctx, rp, res):
 
 def check_finding(ctx, fnd):
     from harness.props import c16_sched
-    return c16_sched.check_finding(ctx, fnd)
+    w = fnd["witness"]
+    if w.get("kind") == "schedule":
+        return c16_sched.check_finding(ctx, fnd)
+    # sequential witness: total opens of /proc/<pid>/stat inside one block
+    impl = Impl(ctx)
+    try:
+        impl.reset()
+        base = None
+        worst = 0
+        for o in w["history"]:
+            r = impl.do(o)
+            tot = r["reads"][0] + r["probes"]
+            if o["op"] == "enter" and base is None:
+                base = tot
+            if base is not None:
+                worst = max(worst, tot - base)
+        return "reproduces" if worst >= w["stat_opens_in_block"] else "gone"
+    finally:
+        impl.close()
